@@ -251,6 +251,26 @@ CHECKS.update({
     ),
 })
 
+CHECKS.update({
+    "C17": (
+        "exploration",
+        "exhaustive enumeration of short token texts + curated borderline texts + "
+        "Hypothesis mutations; oracle = reference regular expressions and mutual "
+        "consistency of decoder type, token predicates and encoder quoting",
+        "Every string of length 1-4 (quick) / 1-5 (thorough) over a 16-character "
+        "alphabet, ~150 curated borderline texts in several letter cases/prefixes and "
+        "mutated numerals/dates are classified under five grammar/decoder pairs and "
+        "four encoders: the decoder's result class must match the specification's "
+        "regular expressions, exactly the matching predicate must hold, numbers and "
+        "dates must not pass as unquoted strings or names, and whatever an encoder "
+        "writes bare must decode to the identical str under its own and the default "
+        "decoder.",
+        "Trusted: the reference regular expressions in props/c17.py; date/time is "
+        "checked one-directionally (strict form => date/time class).",
+        "DESIGN.md 4/C17",
+    ),
+})
+
 PENDING = {}   # id -> reason while a check is not built yet
 
 
